@@ -6,11 +6,14 @@ Proved here (model of the repaired tree):
  * locality of the recursive parser at the fuel the drivers use, for every input, prefix and
    nesting: accepted behind one prefix ⇒ accepted with the same size behind every prefix;
  * re-parsing the returned value gives the same size; the parser's answers do not depend on fuel.
-NOT yet a theorem (partial): the clause "parser accepts ⇒ the size probe and the non-recursive open
-report the same type and size". It is checked by the differential correspondence and by the Go-side
-oracle (`c13` lines: probe-size / open-differs / reread-error), see DESIGN.md §4/C13.
+ * agreement (`parse_probe_agree`, `parse_open_agree`): whenever the recursive parser accepts a byte
+   string with size `n`, the size probe reports exactly `n` and the non-recursive open returns exactly
+   the last `n` bytes, for every input and fuel.
+The converse direction (the probe accepts more than the parser, which checks recursively) is by
+design; the Go-side oracle of the `c13` stream checks the same agreement on the implementation.
 -/
 import SpecVerif.Lemmas.Probe
+import SpecVerif.Lemmas.Agree
 namespace SpecVerif.C13
 open SpecVerif Pinned
 
@@ -86,5 +89,20 @@ theorem fuel_irrelevant (F : FloatOps) (b : Bytes) (f : Nat) (hf : fuelFor b ≤
 and a concrete accepted value satisfies the hypotheses -/
 example : decodeInt32 [0xfd, 11] = .err .data 0 := by decide
 example : decodeInt32 ([1, 2, 0xfd] ++ [7, 11]) = .ok (-4, 2) := by decide
+
+/-- parser and probe agree: for every input and every fuel, an accepted value has exactly the
+size the type-and-size probe reports -/
+theorem parse_probe_agree (F : FloatOps) (fuel : Nat) (b : Bytes) (n : Nat)
+    (h : parseValue F fuel b = .ok n) : ∃ t, decodeTypeSize b = .ok (t, n) :=
+  (SpecVerif.parse_probe_agree F fuel b n h).2
+
+/-- parser and open agree: OpenValue returns exactly the bytes the parser delimited -/
+theorem parse_open_agree (F : FloatOps) (fuel : Nat) (b : Bytes) (n : Nat)
+    (h : parseValue F fuel b = .ok n) (hn : n ≤ b.length) : openValue b = .ok (lastN n b) := by
+  obtain ⟨t, ht⟩ := parse_probe_agree F fuel b n h
+  unfold openValue
+  rw [ht]
+  have : ¬ b.length < n := by omega
+  simp only [this, ↓reduceIte, suffix]
 
 end SpecVerif.C13
